@@ -110,6 +110,13 @@ def run(tier):
             return 3
         return int(c.args[0][2:]) + 3          # main, reader, writer, W workers
     ex.run_priorities(nthreads, cells=[c for c in ex.cells if nthreads(c) <= (5 if quick else 6)])
+    # ... and with one priority-change point anywhere in the run (copy pipeline: two), for the small cells
+    pc_cells = [c for c in ex.cells if nthreads(c) <= 5 and 'tiny' not in c.desc]
+    if quick:
+        pick = ("shape='ZE' W=2", "shape='EZ' W=2", 'stream=3blk W=2 gran=in32/out40000', 'stream=2streams W=2 gran=stock', 'copy n=70000')
+        pc_cells = [c for c in pc_cells if any(c.desc.startswith(x) or c.desc == x for x in pick)]
+    ex.run_priorities(nthreads, cells=[c for c in pc_cells if c.leg != 'copy'], label='1 priority change', demote=1)
+    ex.run_priorities(nthreads, cells=[c for c in pc_cells if c.leg == 'copy'], label='2 priority changes', demote=2)
     # priority-change points (PCT-style): strict-priority schedulers in which, at up to k points of the run, the
     # thread that would run next drops to the lowest priority -- a thread is starved from an arbitrary moment on.
     # Shapes: blocks with planted spurious candidates followed by blocks whose output takes most output slots.
